@@ -217,6 +217,7 @@ func checkC06(cfg *core.Config) int {
 		all = append(all, p)
 	}
 	all = append(all, pinnedPrograms("C06")...)
+	all = append(all, staticPrograms("C06")...)
 	evals := 0
 	for layout := 0; layout < 2; layout++ {
 		var progs []*synth.Program
